@@ -122,6 +122,7 @@ let holds args case impl =
       | None -> List.map (fun b -> (b, "")) (words t)) toks in
   if List.length items <> List.length ops then "fail malformed output" else
   let encrypted_ok = ref false in     (* an EncryptWallet call returned true earlier *)
+  let prev_e = ref "0" in
   let verdict = ref "ok" in
   let fail s = if !verdict = "ok" then verdict := s in
   List.iter2 (fun op (r, s) ->
@@ -135,6 +136,9 @@ let holds args case impl =
         let np = (match String.split_on_char '/' p with a :: _ -> a | [] -> "") in
         let nm = (match String.split_on_char '/' p with [_; _; m] -> (if String.length m > 0 then String.sub m 1 (String.length m - 1) else "") | _ -> "") in
         let can = (match String.split_on_char '/' sg with a :: _ -> a | [] -> "") in
+        if kind = "enc" && r = "0" && !prev_e = "0" && e = "1" && nm <> "0" && nm <> "" then
+          fail "fail encrypt-unlock: EncryptWallet committed the encryption but then could not unlock with the passphrase it was given (the keys do not decrypt: IV / key check mismatch)";
+        prev_e := e;
         if kind = "enc" && r = "1" then encrypted_ok := true;
         if not !encrypted_ok && e = "1" && np <> "0" then
           fail "fail failed-begin-leaves-master-key: EncryptWallet returned false but the wallet claims to be encrypted and locked while all its keys are plaintext (mapMasterKeys keeps the new master key)";
